@@ -46,6 +46,7 @@ fn simulators_for(property: &str, thorough: bool) -> Vec<Box<dyn Simulator>> {
         "C12" => vec![Box::new(sims::iosim_driver::IoSimDriver::new(property))],
         "C10" => vec![Box::new(sims::iosim_driver::IoSimDriver::new(property))],
         "C18" => vec![Box::new(sims::rgsim_driver::RgSimDriver)],
+        "C14" => vec![Box::new(sims::dotsim_driver::DotSimDriver)],
         _ => vec![],
     }
 }
